@@ -25,16 +25,14 @@ func jobsFor(prop, tier string) []*Job {
 		}
 		for n := 1; n <= nmax; n++ {
 			add(&Job{Name: fmt.Sprintf("O2-window/n=%d,wmax=%d", n, wmax), Pkg: "roundrobin", Harness: "VerifC01Window",
-				Params: p("n", n, "wmax", wmax), Unwind: 2*n*wmax + 8,
+				Params: p("n", n, "wmax", wmax), Unwind: 2*n*wmax + 8, IncKind: "cvc5",
 				Bounds: fmt.Sprintf("n=%d servers, weights symbolic in [0,%d] not all zero, every window offset k0 in [0,W), window length W=sum/gcd", n, wmax)})
 		}
 	case "C03", "C13":
 		tpts := []int{1, 333333333, 1000000000}
 		if thorough {
 			tpts = []int{1, 3, 1000, 333333333, 1000000000, 60000000000}
-			if prop == "C13" {
-				tpts = append(tpts, 0)
-			}
+
 		}
 		bd := "one step from an arbitrary invariant-satisfying bucket state: tpt=%s, 1<=burst<=2^20, 0<=avail<=burst, 0<=age<tpt, gap<=2^44 ns, 0<=tokens<=2^21; inductive, covers histories of any length"
 		for _, t := range tpts {
@@ -46,11 +44,12 @@ func jobsFor(prop, tier string) []*Job {
 			if prop == "C03" {
 				add(&Job{Name: fmt.Sprintf("O1-potential/tpt=%d", t), Pkg: "ratelimit", Harness: "VerifC03Potential", Params: p("tpt", t), SkipInc: true, TimeoutS: 120, IncMs: 500, Bounds: b, Inductive: true})
 			} else {
-				add(&Job{Name: fmt.Sprintf("O1O2O4-bucket/tpt=%d", t), Pkg: "ratelimit", Harness: "VerifC13Bucket", Params: p("tpt", t), SkipInc: true, TimeoutS: 120, IncMs: 500, Bounds: b, Inductive: true})
 				add(&Job{Name: fmt.Sprintf("O3-idle/tpt=%d", t), Pkg: "ratelimit", Harness: "VerifC13Idle", Params: p("tpt", t), SkipInc: true, TimeoutS: 120, IncMs: 500, Bounds: b, Inductive: true})
 			}
 		}
 		if prop == "C13" {
+			add(&Job{Name: "O1O2O4-bucket/tpt=symbolic", Pkg: "ratelimit", Harness: "VerifC13Bucket", Params: p("tpt", 0), SkipInc: true, TimeoutS: 120, IncMs: 500, Inductive: true,
+				Bounds: fmt.Sprintf(bd, "symbolic in [1,2^36] ns/token")})
 			add(&Job{Name: "O1O4-set2", Pkg: "ratelimit", Harness: "VerifC13Set", Params: p("tpt", 0), SkipInc: true, TimeoutS: 120, IncMs: 500, MapPermMax: 2, Inductive: true,
 				Bounds: "two buckets in arbitrary invariant-satisfying states (tpt symbolic in [1,2^36]), both map iteration orders, 0<=tokens<=2^21"})
 		}
@@ -81,6 +80,15 @@ func jobsFor(prop, tier string) []*Job {
 		add(&Job{Name: "O3-ratio/N=3,r=1s,k=2", Pkg: "memmetrics", Harness: "VerifC17Ratio", Params: p("N", 3, "k", 2, "t0span", 84), Grid: 1e9, TimeoutS: 120, MergeBlind: true,
 			Merge: map[string]bool{"(*github.com/vulcand/oxy/v2/memmetrics.RollingCounter).cleanup": true, "(*github.com/vulcand/oxy/v2/memmetrics.RollingCounter).incBucketValue": true},
 			Bounds: "ratio counter with 3 buckets of 1s, 2 symbolic increments to A or B with symbolic advances"})
+	case "C05":
+		k, depth := 3, 1
+		if thorough {
+			k, depth = 3, 2
+		}
+		for part := 0; part < 16; part++ {
+			add(&Job{Name: fmt.Sprintf("O2-history/k=%d,depth=%d,part=%d", k, depth, part), Pkg: "cbreaker", Harness: "VerifC05History", Params: p("k", k, "depth", depth, "part", part),
+				Bounds: fmt.Sprintf("%d requests from a fresh breaker, each may overlap with nested requests (depth<=%d), symbolic clock gaps and latencies up to 2^41 ns, symbolic fallback/recovery/check durations in [1,2^40] ns, symbolic condition outcome per evaluation, symbolic response codes", k, depth)})
+		}
 	}
 	return js
 }
